@@ -36,6 +36,15 @@ class UserError2(Exception):
     pass
 
 
+class StatefulError(Exception):
+    """A service exception that carries mutable state (survives the serializer as object state)."""
+
+    def __init__(self, *a):
+        super(StatefulError, self).__init__(*a)
+        self.seen = []
+        self.info = {'k': [1]}
+
+
 class InterruptLike(BaseException):
     """Interrupt-style termination (like KeyboardInterrupt / SystemExit) that is safe to raise in a harness."""
 
